@@ -7,12 +7,13 @@ import vlib
 SCN = {"Scn1": "<<W, W, R, W, R, R, W, W, D>>", "Scn2": "<<W, R, D>>", "Scn3": "<<R, R, W, W, W, R, W, D>>"}
 
 
-def writer_model(chk, name, scn, named, compressed, fault=0, persistent=False, bug="none", invs=None, expect="ok"):
+def writer_model(chk, name, scn, named, compressed, fault=0, persistent=False, bug="none", invs=None, expect="ok",
+                 prepart="{}"):
     work = vlib.scratch("wrmc")
     cfg = work / "MCWriter.cfg"
     cfg.write_text("\n".join([
         "SPECIFICATION Spec", "CONSTANTS", f"  Scenario <- {scn}", f"  Named = {'TRUE' if named else 'FALSE'}",
-        f"  Compressed = {'TRUE' if compressed else 'FALSE'}", "  PreExisting = {2}", f"  FaultAt = {fault}",
+        f"  Compressed = {'TRUE' if compressed else 'FALSE'}", "  PreExisting = {2}", f"  PrePart = {prepart}", f"  FaultAt = {fault}",
         f"  Persistent = {'TRUE' if persistent else 'FALSE'}", f'  WBug = "{bug}"',
         "INVARIANTS " + " ".join(invs or ["C15_Atomic", "C16_Reported", "C14_Complete"]), "CHECK_DEADLOCK FALSE", ""]))
     res, verdict = vlib.model_check("MCWriter", cfg, workers=2, timeout=600, xmx="2g")
@@ -20,17 +21,18 @@ def writer_model(chk, name, scn, named, compressed, fault=0, persistent=False, b
     shutil.rmtree(work, ignore_errors=True)
 
 
-def run_scenarios(chk, mode, scenarios, relevant, label, timeout=2400):
+def run_scenarios(chk, mode, scenarios, relevant, label, timeout=2400, flavor="plain"):
     work = vlib.scratch(label)
     sf = work / "scenarios.ndjson"
     with open(sf, "w") as f:
         for s in scenarios:
             f.write(json.dumps(s) + "\n")
-    exe = vlib.build_driver("wr_driver", "plain")
+    exe = vlib.build_driver("wr_driver", flavor)
     nsh = min(vlib.NCPU, len(scenarios))
     files = [work / f"wr.{i}.ndjson" for i in range(nsh)]
     cmds = [[exe, mode, sf, i, nsh, files[i]] for i in range(nsh)]
-    for cmd, rc, out in vlib.run_parallel(cmds, timeout=timeout, env={"VERIF_TMP": str(work)}):
+    env = {"VERIF_TMP": str(work), "ASAN_OPTIONS": "abort_on_error=1:detect_leaks=0", "UBSAN_OPTIONS": "halt_on_error=1:abort_on_error=1"}
+    for cmd, rc, out in vlib.run_parallel(cmds, timeout=timeout, env=env):
         if rc != 0:
             raise vlib.Infra(f"wr_driver failed rc={rc}: {out}")
     merged = vlib.validate_traces("TraceWriter", files, constants={}, timeout=timeout, label=label + "tv")
@@ -68,6 +70,27 @@ def writer_scenarios(rng, tier, big=False):
                     scs.append({"id": sid, "target": "writer", "comp": comp, "kind": "file",
                                 "chunks": [{"id": 1, "n": mb << 20, "pat": pat, "seed": 7}, {"id": 2, "n": 5, "pat": "text"}],
                                 "steps": [{"op": "w", "c": 2}, {"op": "w", "c": 1}, {"op": "rot"}, {"op": "w", "c": 2}]})
+    return scs
+
+
+def boundary_scenarios(tier):
+    """Chunk lengths around the multiples of 4 KiB / 16 KiB up to 96 KiB (the compressors' 64 KiB scratch buffer and every
+    fraction of it a size estimate might use), each written while the compressor still holds the backlog of a large
+    incompressible chunk: every compression step then fills all the room it is offered."""
+    step = 16384 if tier == "quick" else 4096
+    sizes = sorted({m + d for m in range(step, 98304 + 1, step) for d in (-130, -96, -52, -33, -1, 0, 1, 33, 64) if m + d > 0})
+    scs = []
+    sid = 7000
+    for comp in ["gz", "xz"]:
+        # each boundary length directly behind its own 384 KiB incompressible chunk (the backlog is largest right after
+        # it; the large chunks differ, a repeated one would be found in the compressor's dictionary and leave no backlog)
+        chunks, steps = [], []
+        for k, n in enumerate(sizes):
+            chunks.append({"id": 2 * k + 1, "n": 384 << 10, "pat": "rand", "seed": 5000 + k})
+            chunks.append({"id": 2 * k + 2, "n": n, "pat": "rand", "seed": 100 + k})
+            steps += [{"op": "w", "c": 2 * k + 1}, {"op": "w", "c": 2 * k + 2}]
+        sid += 1
+        scs.append({"id": sid, "target": "writer", "comp": comp, "kind": "fd", "chunks": chunks, "steps": steps})
     return scs
 
 
